@@ -102,23 +102,33 @@ def generic_state(sys_, keys, form, gauge, cplx):
         sv = m.calc_bond_singular_values() if form == "mps" else None
         if sv is None or min(float(np.min(row[row > 0])) for row in sv if np.any(row > 0)) > 2e-2:
             break
-    if gauge == "skew":
+    if gauge in ("skew", "skewL", "skewR"):
         # same state, same bonds, same flags, but an invertible gauge X / X^-1 inserted on a middle bond: the tensors are no longer isometries
         # X is block diagonal in the bond's quantum-number labels (it must not mix sectors), dense inside a block, complex
         # for complex states: the left overlap matrix X^+ X is then a genuinely non-diagonal (complex) Hermitian matrix
-        k = max(0, len(m) // 2 - 1)
-        d = m[k].shape[-1]
+        # both flag settings occur: "claims left-canonical" (centre at the end, to_right False) and "claims right-canonical"
+        if gauge == "skewR":
+            m.ensure_right_canonical()
+        else:
+            m.ensure_left_canonical()
+        # on EVERY bond (a gauge next to the centre is absorbed by it; which bonds matter depends on the scheme)
         r = rng_for(*keys, "skew")
-        lab = [tuple(np.atleast_1d(q)) for q in np.asarray(m.qn[k + 1])]
-        X = np.zeros((d, d), dtype=complex if cplx else float)
-        for q in set(lab):
-            idx = [i for i, l in enumerate(lab) if l == q]
-            blk = np.diag(np.exp(r.uniform(-0.7, 0.7, size=len(idx)))).astype(X.dtype)
-            blk = blk + (0.25 / np.sqrt(len(idx))) * (r.normal(size=(len(idx),) * 2) + (1j * r.normal(size=(len(idx),) * 2) if cplx else 0))
-            X[np.ix_(idx, idx)] = blk
-        Xi = np.linalg.inv(X)
-        m[k] = np.tensordot(m[k].array, X, axes=(-1, 0))
-        m[k + 1] = np.tensordot(Xi, m[k + 1].array, axes=(1, 0))
+        for k in range(len(m) - 1):
+            d = m[k].shape[-1]
+            lab = [tuple(np.atleast_1d(q)) for q in np.asarray(m.qn[k + 1])]
+            X = np.zeros((d, d), dtype=complex if cplx else float)
+            for q in sorted(set(lab)):
+                idx = [i for i, l in enumerate(lab) if l == q]
+                for attempt in range(20):
+                    # every direction is rescaled by a factor well away from 1 (exp(+-[0.4, 0.7])); redraw ill-conditioned blocks
+                    blk = np.diag(np.exp(r.choice([-1.0, 1.0], size=len(idx)) * r.uniform(0.4, 0.7, size=len(idx)))).astype(X.dtype)
+                    blk = blk + (0.25 / np.sqrt(len(idx))) * (r.normal(size=(len(idx),) * 2) + (1j * r.normal(size=(len(idx),) * 2) if cplx else 0))
+                    if np.linalg.cond(blk) < 8:
+                        break
+                X[np.ix_(idx, idx)] = blk
+            Xi = np.linalg.inv(X)
+            m[k] = np.tensordot(m[k].array, X, axes=(-1, 0))
+            m[k + 1] = np.tensordot(Xi, m[k + 1].array, axes=(1, 0))
     if gauge == "cano1":
         m.canonicalise()
     elif gauge == "moved":
